@@ -190,3 +190,107 @@ class K08b(Harness):
         return {"kinds": ["B"] + [names[values.get("k%d" % i, 0)] for i in range(p["n"])] + ["cr"]}
 
     signature = staticmethod(_sig)
+
+
+_WS_RULES = []
+
+
+def _ws_rules():
+    """(unique_id, fixture) of every shipped rule built on whitespace_between_tokens.Rule that has its own corpus fixture"""
+    import os
+
+    from vsg import rule_list, vhdlFile as vhdlFile_pkg
+    from vsg.rules import whitespace_between_tokens as W
+
+    from .lfam import CORPUS, get_conf
+
+    if not _WS_RULES:
+        o = vhdlFile_pkg.vhdlFile([""])
+        rl = rule_list.rule_list(o, get_conf("default").severity_list)
+        for r in rl.rules:
+            if isinstance(r, W.Rule) and not rule_list.is_rule_deprecated(r):
+                name, num = r.unique_id.rsplit("_", 1)
+                f = "fixtures/%s__rule_%s_test_input.vhd" % (name, num)
+                if os.path.exists(os.path.join(CORPUS, f)):
+                    _WS_RULES.append((r.unique_id, f))
+    return _WS_RULES
+
+
+@register
+class K08c(Harness):
+    name = "K08c"
+    prop = "C08"
+    props = ("C08", "C10")
+    title = "a whitespace rule's fix, under every documented spelling of number_of_spaces (N, >N, >=N, N+, <N, <=N), leaves a model that a fresh parse of its own text reproduces token for token (no zero-width token), the rule reports on that model what it reports on the fresh parse, and nothing it can repair is left"
+    functions = ("vsg.rules.whitespace_between_tokens", "vsg.rule.rule", "vsg.rules.utils", "vsg.vhdlFile.vhdlFile", "vsg.token_map", "vsg.tokens")
+    stubs = ()
+    assumptions = ("a spelling that allows or demands zero blanks is applied only to a rule whose token pairs in the fixture stay two tokens when written without a blank (`end` `process` would become one word: the configuration, not the fix, fuses them)",)
+    bounds = "every shipped rule derived from whitespace_between_tokens.Rule that has its own fixture (160 of 171) on that fixture x operator in {N, >N, >=N, N+, <N, <=N} x N in 0..3 (quick: the rules whose index = VERIF_SEED mod 8, thorough: all)"
+    outside = "gap widths other than those in the fixtures; N > 3; interaction of two whitespace rules on one gap (L08/L10 under the option sweeps)"
+
+    def params(self, tier):
+        import os
+
+        rules = _ws_rules()
+        if tier == "quick":
+            s = int(os.environ.get("VERIF_SEED", "0") or 0) % 8
+            rules = rules[s::8]
+        return [{"rule": u, "fixture": f} for u, f in rules]
+
+    def shard_target(self, p):
+        return 4
+
+    def run(self, eng, p):
+        from vsg import rule_list, tokens as tokens_mod, vhdlFile as vhdlFile_pkg
+
+        from .lfam import get_conf, read_fixture
+
+        ops = ["%d", ">%d", ">=%d", "%d+", "<%d", "<=%d"]
+        op = ops[eng.choose("op", len(ops))]
+        n = int(eng.choose("n", 4))
+        spelling = n if op == "%d" else op % n
+        zero_allowed = (op == "%d" and n == 0) or (op == "<%d" and n <= 1) or (op == "<=%d" and n == 0)
+        if op == "<%d" and n == 0:
+            return True  # '<0' asks for fewer than no blanks: not a meaningful configuration
+        conf = get_conf("default")
+        lines = read_fixture(p["fixture"])
+
+        def load(ls):
+            o = vhdlFile_pkg.vhdlFile(list(ls))
+            o.set_indent_map(conf.dIndent)
+            rl = rule_list.rule_list(o, conf.severity_list)
+            rl.configure(conf)
+            r = [x for x in rl.rules if x.unique_id == p["rule"]][0]
+            r.number_of_spaces = spelling
+            return o, r
+
+        o, r = load(lines)
+        if zero_allowed:
+            for oToi in r._get_tokens_of_interest(o):
+                lt = oToi.get_tokens()
+                a, b = lt[0].get_value(), lt[-1].get_value()
+                if [x for x in tokens_mod.create(a + b)] != [a, b]:
+                    return True  # outside the claim, see assumptions
+        r.fix(o)
+        out = o.get_lines()[1:]
+        cl = []
+        cl.append(("C08:no_zero_width_token", not any(t.get_value() == "" and not isinstance(t, parser.blank_line) for t in o.lAllObjects)))
+        o2, r2 = load(out)
+        a = [(type(t).__name__, t.get_value()) for t in o.lAllObjects]
+        b = [(type(t).__name__, t.get_value()) for t in o2.lAllObjects]
+        cl.append(("C08:model_equals_fresh_parse_of_written_text", a == b))
+        r.clear_violations()
+        r.analyze(o)
+        r2.analyze(o2)
+        v1 = [(v.get_line_number(), v.get_solution()) for v in r.violations]
+        v2 = [(v.get_line_number(), v.get_solution()) for v in r2.violations]
+        cl.append(("C08:report_on_model_equals_report_on_fresh_parse", v1 == v2))
+        cl.append(("C10:nothing_left_to_fix", v2 == []))
+        return cl
+
+    def describe(self, values, p):
+        ops = ["%d", ">%d", ">=%d", "%d+", "<%d", "<=%d"]
+        op, n = ops[values.get("op", 0)], values.get("n", 0)
+        return {"rule": p["rule"], "fixture": p["fixture"], "number_of_spaces": n if op == "%d" else op % n}
+
+    signature = staticmethod(_sig)
